@@ -26,10 +26,10 @@ def gen_cases(tier, seed):
     cases = []
     for kind in ("mem", "redis", "rabbit"):
         combos = []
-        for M in (1, 2, 5):
+        for M in (1, 2, 3, 5):
             for backlog in (M + 1, 3 * M, 50):
-                for d in (0.0, 0.001, 1.0, 6.0):
-                    for tl in sorted({1, M, 1000}):
+                for d in (0.0, 0.001, 1.0, 6.0, "mixed"):
+                    for tl in sorted({1, 2, M, 1000}):
                         for nq in (1, 2, 3):
                             combos.append((M, backlog, d, tl, nq))
         rnd.shuffle(combos)
@@ -60,11 +60,16 @@ async def limit_scenario(loop, case, out, stats, fps, samples):
             w.scripted_actor(r, f"act{i}", queue=q)
             await w.conn.message_broker.queue_declare(q)
         ids = []
+
+        def dur(qi):
+            return [0.10, 0.25, 0.17][qi % 3] if d == "mixed" else d
+
+        dmax = 0.25 if d == "mixed" else d
         for i in range(backlog):
             qi = rnd.randrange(nq)
             id_ = f"j{i:03d}"
             ids.append(id_)
-            await w.job(f"act{qi}", id_, {"do": "ok", "d": d}, queue=queues[qi], retries=2, timeout=timedelta(seconds=60), store_result=False).enqueue()
+            await w.job(f"act{qi}", id_, {"do": "ok", "d": dur(qi)}, queue=queues[qi], retries=2, timeout=timedelta(seconds=60), store_result=False).enqueue()
         graceful = 20.0  # longer than every actor here: forced cancellation is C03's subject
         worker = w.worker([r], messages_limit=M, tasks_limit=tl, graceful_shutdown_time=graceful, handle_signals=[])
         # invariant at a hook (harness-side class-level wrapper): after every task-done callback the stop flag must be
@@ -93,11 +98,11 @@ async def limit_scenario(loop, case, out, stats, fps, samples):
             await asyncio.sleep(0.5)
             for i in range(3):
                 id_ = f"late{i}"
-                await w.job("act0", id_, {"do": "ok", "d": d}, queue=queues[0], retries=2, timeout=timedelta(seconds=60), store_result=False).enqueue()
+                await w.job("act0", id_, {"do": "ok", "d": dmax}, queue=queues[0], retries=2, timeout=timedelta(seconds=60), store_result=False).enqueue()
                 ids.append(id_)
 
         prod = loop.create_task(late_producer()) if case.get("late") else None
-        bound = M * d + d + graceful + 10.0 + backlog * {"mem": 0.05, "redis": 0.6, "rabbit": 0.2}[kind]
+        bound = M * dmax + dmax + graceful + 10.0 + backlog * {"mem": 0.05, "redis": 0.6, "rabbit": 0.2}[kind]
         returned = True
         raised = False
         try:
@@ -131,8 +136,10 @@ async def limit_scenario(loop, case, out, stats, fps, samples):
         if hook_log and all(h is not None for h in hook_log):
             stats["limit_hook_evaluations"] += len(hook_log)
             for processed, taken, flag, mx in hook_log:
-                if processed + taken >= mx and not flag:
-                    out.append(V("overshoot", kind, "stop-flag-not-raised", f"after a task-done callback: finished={processed}, slots taken={taken}, messages_limit={mx}, but the stop flag is not set (M={M}, tasks_limit={tl}, {nq} queues)"))
+                # (the stricter "finished + slots taken >= M" was only a proxy for overshoot while overshoot was a known
+                #  finding; since fix ffe46be extra starts are judged directly and the proxy would flag correct code)
+                if processed >= mx and not flag:
+                    out.append(V("no_return", kind, "stop-flag-not-raised", f"after a task-done callback: finished={processed}, slots taken={taken}, messages_limit={mx}, but the stop flag is not set (M={M}, tasks_limit={tl}, {nq} queues)"))
                     break
         else:
             stats["limit_hook_unavailable"] += 1
@@ -216,7 +223,8 @@ async def plugin_scenario(loop, case, out, stats, fps, samples):
             new = w.events("actor_start")[n_before:]
             mine = [s for s in new if s["id"] == id_]
             if kindj in ("ok", "fail_retry") and len(mine) != 1:
-                out.append(V("plugin_not_once", "mem", f"{kindj}", f"after enqueue() of {id_} returned it had been executed {len(mine)} times; executed instead: {[s['id'] for s in new]}; sequence so far {seq}"))
+                why = "ran-more-than-once" if mine else ("earlier-message-taken-instead" if new and all(s["id"] < id_ for s in new) else "nothing-ran")
+                out.append(V("plugin_not_once", "mem", why, f"after enqueue() of {id_} returned it had been executed {len(mine)} times; executed instead: {[s['id'] for s in new]}; sequence so far {seq}"))
             if kindj == "unrelated" and new:
                 out.append(V("plugin_not_once", "mem", "unrelated-ran", f"enqueue of a job the router does not know started {[s['id'] for s in new]}"))
             if len(new) > 1:
